@@ -134,6 +134,8 @@ def run(c):
         "file) on generated dawn.toml files; tidy against a module cache pre-populated under a temporary HOME (no network), "
         "get as `get -u` on projects without requirements (any other get has to dial a repository). What the resolver "
         "returns is taken from mvs.Tidy / mvs.UpgradeAll themselves; C10/C11 are about that part",
+        "the judge loads through LoadConfigFile (the file on disk), the stream config.load through LoadConfigBytes; the size "
+        "classes are valid by construction (plain names, v1.2.3, paths without @) and are not sent to the model",
         "observation, not a violation (outside the quantifier): CleanPath is not idempotent on paths whose last element "
         "keeps an @v0/@v1/@ suffix after the first cleaning (a@v1@v1 -> a@v1 -> a); such a path is not in clean form "
         "(theorem C19_cleanpath_idem_counterexample)",
@@ -149,7 +151,10 @@ def run(c):
         "Every written file is also re-rendered twice with random blanks, blank lines and key order. Command layer: "
         "generated dawn.toml files (special names, versions, non-empty ignore lists, 0-4 requirements with @ paths) "
         "rewritten by the real `tidy` (fake module cache with transitive requirements) and `get -u`. "
-        "Non-trivial: the real code produced a value.")
+        "Size classes (implementation only, through LoadConfigFile): encodings of exactly 64 KiB -1/+1/+12%, 1 MiB -1/+1/+12% "
+        "and 3.2 MB (thorough: also 4 MiB+1 and 16.8 MB), each built once from many requirements and once from a few huge "
+        "strings, plus files in which offset 64 KiB / 1 MiB / 2 MiB (thorough: every power of two from 128 KiB to 16 MiB) is "
+        "the first byte of a line. Non-trivial: the real code produced a value.")
     c.prove()
     exe = harness(c)
     cexe = cmd_harness(c)
